@@ -449,9 +449,12 @@ def d2_dogleg(ctx):
                        detail=f"|{src(v)}|^2_M = {tt} under {cc} >= {tt}",
                        bad_detail=f"scaled Cauchy point `{src(v)}`: squared norm does not normalise to {tt}, or it is not returned under `{cc} >= {tt}`")
         elif isinstance(v, ast.Call) and isinstance(v.func, ast.Name) and v.func.id == "preconditioned_project_to_boundary":
-            a = v.args
-            ok = len(a) == 5 and same(a[0], cp) and same(a[1], f"{nw} - {cp}") and same(a[2], tr) and same(a[3], cc) and same(a[4], mm)
-            okg = implies_le(fs, cc, tt) and any(pol and same(f, f"{nn} > {tt}") for (f, pol) in fs)
+            pp_ = ctx.need(f"{ES}:preconditioned_project_to_boundary").params()
+            a = [actual(v, pp_, p_) for p_ in pp_]
+            ok = len(a) == 5 and all(x is not None for x in a) and same(a[0], cp) and same(a[1], f"{nw} - {cp}") and same(a[2], tr) and same(a[3], cc) and same(a[4], mm)
+            # guard: Cauchy point inside and Newton point outside (either spelling of the negated test)
+            okg = implies_le(fs, cc, tt) and (any(pol and same(f, f"{nn} > {tt}") for (f, pol) in fs) or
+                                             any((not pol) and same(f, f"{nn} <= {tt}") for (f, pol) in fs) or implies_le(fs, tt, nn))
             ctx.decide(rule, ok and okg, dg, r.ast, construct="return-dogleg-boundary-point",
                        detail="boundary point on cp + tau (newton - cp), cp inside, newton outside",
                        bad_detail=f"dogleg boundary point `{src(v)[:100]}` does not start at the Cauchy point along (newton - cauchy) with zz = cc, "
